@@ -20,7 +20,9 @@ fn tup(v: Vec<Expr>) -> Expr {
     Expr::TupleLit(v)
 }
 
-pub const POOL: usize = 44;
+pub const POOL: usize = 47;
+/// number of hashable key expressions (indices below this)
+pub const HASHABLE: usize = 39;
 
 /// key expression number `i`; several indices denote equal keys built differently
 pub fn key_expr(i: usize) -> Expr {
@@ -61,14 +63,19 @@ pub fn key_expr(i: usize) -> Expr {
         33 => s("1"),
         34 => n(1e19),
         35 => tup(vec![s("ab"), Expr::Nil, Expr::True]),
+        // tuples that contain NaN: hashable; such a tuple equals itself (one object) but no other
+        // tuple, so the same object offered again denotes its entry and a rebuilt one never does
+        36 => tup(vec![Expr::bin(BinOp::Div, n(0.0), n(0.0)), n(1.0)]),
+        37 => tup(vec![tup(vec![Expr::bin(BinOp::Div, n(0.0), n(0.0))]), s("a")]),
+        38 => tup(vec![n(1.0), Expr::bin(BinOp::Div, n(0.0), n(0.0))]),
         // unhashable from here
-        36 => Expr::VecLit(vec![n(1.0)]),
-        37 => Expr::MapLit(vec![], ln()),
-        38 => Expr::var("inst"),
-        39 => Expr::var("func"),
-        40 => tup(vec![n(1.0), Expr::VecLit(vec![])]),
-        41 => Expr::invoke(Expr::VecLit(vec![n(1.0)]), "iter", vec![]),
-        42 => Expr::get(s("x"), "len"),
+        39 => Expr::VecLit(vec![n(1.0)]),
+        40 => Expr::MapLit(vec![], ln()),
+        41 => Expr::var("inst"),
+        42 => Expr::var("func"),
+        43 => tup(vec![n(1.0), Expr::VecLit(vec![])]),
+        44 => Expr::invoke(Expr::VecLit(vec![n(1.0)]), "iter", vec![]),
+        45 => Expr::get(s("x"), "len"),
         _ => tup(vec![tup(vec![Expr::MapLit(vec![], ln())])]),
     }
 }
@@ -133,7 +140,7 @@ pub fn program(data: &[u8]) -> (Program, Vec<&'static str>) {
     let pool_size = 4 + rd.below(14);
     let mut pool: Vec<usize> = Vec::new();
     for _ in 0..pool_size {
-        let i = if rd.chance(1, 8) { 36 + rd.below(POOL - 36) } else { rd.below(36) };
+        let i = if rd.chance(1, 8) { HASHABLE + rd.below(POOL - HASHABLE) } else { rd.below(HASHABLE) };
         pool.push(i);
     }
     let dense = rd.chance(1, 6); // many distinct numeric keys: forces table growth
